@@ -4,8 +4,8 @@
 cd /verif
 for d in seeded/*/ selftest/mustfail/*.diff; do
   case "$d" in
-    seeded/*) name=$(basename $d); patch=$d/patch.diff; prop=$(python3 -c "import json;print(json.load(open('$d/meta.json'))['breaks_property'])");;
-    *) name=$(basename $d .diff); patch=$d; prop=${name%%-*};;
+    seeded/*) name=$(basename $d); patch=/verif/$d/patch.diff; prop=$(python3 -c "import json;print(json.load(open('$d/meta.json'))['breaks_property'])");;
+    *) name=$(basename $d .diff); patch=/verif/$d; prop=${name%%-*};;
   esac
   [ -n "${1:-}" ] && [[ "$name" != *"$1"* ]] && continue
   if ! git -C /repo apply --check $patch 2>/dev/null; then echo "SKIP $name (patch does not apply)"; continue; fi
